@@ -24,7 +24,7 @@ def showTokItem (t : LTok) : String :=
 def judgeParse (src impl a b _flag : List Char) : String :=
   let implS := String.ofList impl
   -- 1. specification on the implementation's observation
-  let specV := Wac.Spec.Grammar.verdict src
+  let specV := Wac.Spec.Grammar.verdictWith Wac.Generated.maxNestingDepth src
   let specMsg : Option String :=
     match specV with
     | .ambiguous n => some s!"the grammar has {n} derivations for this text"
